@@ -112,7 +112,8 @@ def body(case):
         if datum:
             out.label(f"datum:{datum}")
         for multi in MULTIS:
-            orders = ["dm", "md"] if (datum and multi) else ["dm"]
+            # "ct": the modifiers handed to the DataPath constructor (datum_type= / multi_type=) instead of chained
+            orders = ["dm", "md", "ct"] if (datum and multi) else ["dm", "ct"] if (datum or multi) else ["dm"]
             results = {}
             for order in orders:
                 for rp in (False, True):
@@ -121,9 +122,15 @@ def body(case):
                     tag = f"{datum or '-'}|{multi or '-'}|{kind}"
                     raised = None
                     try:
-                        obj = build.apply_modifiers(base, pt)
+                        if order == "ct":
+                            d_ = build.ns().d
+                            obj = d_.DataPath(*[p.v if isinstance(p, Prim) else bp for p, bp in zip(parts, base.parts)],
+                                              datum_type=getattr(d_.DataPathDatumType, datum.upper()) if datum else None,
+                                              multi_type=getattr(d_.DataPathMultiType, multi.upper()) if multi else None)
+                        else:
+                            obj = build.apply_modifiers(base, pt)
                         got = obj.get_data(src, return_paths=rp)
-                        if (datum or multi) and part_specs is not None and not rp:
+                        if order != "ct" and (datum or multi) and part_specs is not None and not rp:
                             # the same modifiers written as a spec key (short forms when the datum
                             # modifier comes first, full names otherwise) must resolve identically
                             toks = []
@@ -145,8 +152,12 @@ def body(case):
                     except ValueError as e:
                         raised = e
                     except Exception as e:
-                        out.exc(f"no-raise|{tag}", e)
-                        continue
+                        if order == "ct" and multi and (conc or not parts):
+                            # the constructor refuses too; the statement does not name the error type of a refusal
+                            raised = e
+                        else:
+                            out.exc(f"no-raise|{tag}", e)
+                            continue
                     # expectation
                     if multi and (conc or not parts):
                         if raised is None:
@@ -179,11 +190,12 @@ def body(case):
                         out.add("modifier-meaning", f"modifier-meaning|multi={multi}" if multi else f"modifier-meaning|datum={datum}",
                                 f"{show(path,200)} datum={datum} multi={multi} order={order} return_paths={rp} on {show(doc,150)}: got {show(got,200)} expected {show(exp,200)}")
                     results[(order, rp)] = got
-            if len(orders) == 2:
+            if len(orders) >= 2:
                 for rp in (False, True):
-                    a, b = results.get(("dm", rp)), results.get(("md", rp))
-                    if ("dm", rp) in results and ("md", rp) in results and repr(a) != repr(b):
-                        out.add("order-independent", f"order-independent|{datum}|{multi}", f"dm={show(a,150)} md={show(b,150)}")
+                    for o2 in orders[1:]:
+                        a, b = results.get(("dm", rp)), results.get((o2, rp))
+                        if ("dm", rp) in results and (o2, rp) in results and repr(a) != repr(b):
+                            out.add("order-independent", f"order-independent|{datum}|{multi}", f"dm={show(a,150)} {o2}={show(b,150)}")
     if n >= 2 and len(datums) > 1:
         out.label("nontrivial-with-datum")
     return out
